@@ -79,6 +79,20 @@ def main():
     for i in range(0, len(cases), 500):
         d.process(cases[i:i + 500])
     found = d.finish()
+    # CONCURRENT state machines sharing one causaloid (harness family csmconc): each machine's action must fire exactly when ITS data
+    # makes the causaloid true, whatever the other machine does at the same time (stress: the schedule is the OS's)
+    k = 600 if run.thorough else 250
+    for attempt in range(3 if run.thorough else 2):
+        rc, outs, err = run_lines(bins["release"], [f"csmconc {k}"], line_timeout=120)
+        run.cov["evaluations"] += 1
+        o = outs[0] if outs else "<no answer>"
+        if o.split() != ["0", "0", "0", "0"]:
+            run.violation({"kind": "property-oracle-failed-on-implementation", "concurrent": True, "harness_line": f"csmconc {k}", "got": o,
+                           "why": f"two state machines sharing one causaloid, evaluated at the same time on two threads with opposite data ({2 * k * 1000} evaluations): "
+                                  f"actions missed by the machine whose data is true / fired by the machine whose data is false / errors A / errors B = {o} (all must be 0)",
+                           "rerun": "cd /verif && python3 bin/check.py C03 --replay <this file>"})
+            break
+    run.cov["concurrent_state_machines"] = {"runs": attempt + 1, "evaluations_per_run": 2 * k * 1000}
     proof_failure_violation(run, found or run.violations)
     run.cov["rule"] = ("histories of up to 40 operations over at most 6 registered ids: new / add / remove / update / eval_single(id, data) / eval_all / update_all / len, ids aimed at "
                        "registered ones (75%) or arbitrary; 24 pooled causal states (two function kinds, stored data with true / false / error codes, ids shared by three states each) and "
@@ -94,4 +108,13 @@ def main():
 
 def replay(path):
     run = Run("C03"); ensure_driver(); bins = builds(run)
+    import json as _j
+    dj = _j.load(open(path))
+    if dj.get("concurrent"):
+        bad = False
+        for attempt in range(5):
+            rc, outs, err = run_lines(bins["release"], [dj["harness_line"]], line_timeout=120)
+            print("attempt", attempt, "got", outs[0] if outs else None)
+            if not outs or outs[0].split() != ["0", "0", "0", "0"]: bad = True; break
+        print("REPRODUCED" if bad else "not reproduced"); return 1 if bad else 0
     return generic_replay(mk_diff(run, bins), path)
